@@ -189,6 +189,10 @@ class UBootSuite(Suite):
         else:
             if res[0] == "timeout":
                 fails.append(f"TimeoutError at t={res[1]} although no boot timeout is configured")
+            if cfg["stall"] is None and (not cfg["autoboot"] or cfg["countdown"]) and res[0] != "ok":
+                # a console that shows everything it is expected to show: bring-up must get through, however the
+                # output is cut into pieces
+                fails.append(f"the console shows the autoboot prompt and the U-Boot prompt (fragmentation {cfg['frag']!r}) but bring-up ended with {res[:3]!r}; lines received by the console: {lines!r}")
         if res[0] == "exc":
             fails.append(f"bring-up raised {res[2:]!r}")
         # the autoboot keys are sent only after the countdown has been seen
